@@ -128,7 +128,18 @@ func gsxC20ExitAfterDefer() {
 	names := []struct{ q, f, path string }{{"log", "Fatal", "log"}, {"log", "Fatalf", "log"}, {"log", "Fatalln", "log"}, {"os", "Exit", "os"}}
 	pick := names[gsxrt.Choose("callee", len(names))]
 	q := &ast.Ident{Name: pick.q, NamePos: 60}
-	kind := gsxrt.Choose("qualifier is", 3)
+	kind := gsxrt.Choose("qualifier is", 4)
+	var qual ast.Expr = q
+	switch kind {
+	case 3: // a field of that name: a.log.Fatal(...), the qualifier is not an identifier at all
+		recv := &ast.Ident{Name: "a", NamePos: 58}
+		holder := types.NewVar(0, nil, "a", types.NewNamed(types.NewTypeName(0, nil, "app", nil), types.NewStruct(nil, nil), nil))
+		info.Uses[recv] = holder
+		q.NamePos = 60
+		sel := &ast.SelectorExpr{X: recv, Sel: q}
+		info.Types[sel] = types.TypeAndValue{Type: types.NewNamed(types.NewTypeName(0, nil, "logger", nil), types.NewStruct(nil, nil), nil)}
+		qual = sel
+	}
 	switch kind {
 	case 0: // the standard package
 		info.Uses[q] = types.NewPkgName(0, nil, pick.q, types.NewPackage(pick.path, pick.q))
@@ -137,11 +148,35 @@ func gsxC20ExitAfterDefer() {
 	default: // a local variable with such a method
 		info.Uses[q] = types.NewVar(0, nil, pick.q, types.NewNamed(types.NewTypeName(0, nil, "logger", nil), types.NewStruct(nil, nil), nil))
 	}
-	call := &ast.CallExpr{Fun: &ast.SelectorExpr{X: q, Sel: &ast.Ident{Name: pick.f, NamePos: 64}}, Lparen: 70, Rparen: 72}
+	call := &ast.CallExpr{Fun: &ast.SelectorExpr{X: qual, Sel: &ast.Ident{Name: pick.f, NamePos: 64}}, Lparen: 70, Rparen: 72}
 	deferred := &ast.DeferStmt{Defer: 40, Call: &ast.CallExpr{Fun: &ast.Ident{Name: "println", NamePos: 46}, Lparen: 53, Rparen: 54}}
 	fn := &ast.FuncDecl{Name: &ast.Ident{Name: "f", NamePos: 25}, Type: &ast.FuncType{Func: 20, Params: &ast.FieldList{Opening: 26, Closing: 27}},
 		Body: &ast.BlockStmt{Lbrace: 30, List: []ast.Stmt{deferred, &ast.ExprStmt{X: call}}, Rbrace: 80}}
-	v := gsxrt.Field(gsxrt.Field(c, "fileWalker"), "visitor").(interface{ VisitFuncDecl(*ast.FuncDecl) })
+	// the file around it: it may or may not import log and os (a checker that looks the
+	// packages up per file gets its EnterFile step first, as the walkers do)
+	file := &ast.File{Package: 1, Name: &ast.Ident{Name: "p", NamePos: 9}, Decls: []ast.Decl{fn}}
+	info.Implicits = map[ast.Node]types.Object{}
+	for i, p := range []string{"log", "os"} {
+		imported := gsxrt.Choose("file imports "+p, 2) == 1
+		if kind == 0 && p == pick.path {
+			imported = true
+			gsxrt.Assume(gsxrt.Choose("file imports "+p, 2) == 1)
+		}
+		if imported {
+			spec := &ast.ImportSpec{Path: &ast.BasicLit{Kind: token.STRING, Value: `"` + p + `"`, ValuePos: token.Pos(12 + 3*i)}}
+			file.Imports = append(file.Imports, spec)
+			obj := types.NewPkgName(spec.Path.ValuePos, nil, p, types.NewPackage(p, p))
+			if kind == 0 && p == pick.path {
+				obj = info.Uses[q].(*types.PkgName)
+			}
+			info.Implicits[spec] = obj
+		}
+	}
+	visitor := gsxrt.Field(gsxrt.Field(c, "fileWalker"), "visitor")
+	if ef, ok := visitor.(interface{ EnterFile(*ast.File) bool }); ok {
+		ef.EnterFile(file)
+	}
+	v := visitor.(interface{ VisitFuncDecl(*ast.FuncDecl) })
 	v.VisitFuncDecl(fn)
 	gsxrt.Reached("visited")
 	if len(gsxWarnings(c)) == 0 {
